@@ -33,6 +33,10 @@ EXPLANATION = (
     "expression and the evaluation method of its kind. NOT decided: that re-spacing a formula never changes its parse, and that spans "
     "of quoted tokens delimit exactly their text (the recorded span of a brace / back-quote token starts at its opening delimiter)."
 )
+LEVEL_NOTE = ("Partial: decides the structural clauses named in the level text (verbatim copying inside quote contexts, closure and pairing of the "
+              "quote-context stack, escape handling, whitespace never entering a token, one normaliser on every path, span convention). The "
+              "metamorphic statements of the property over all strings — re-spacing never changes the parse; every column name can be referenced; "
+              "spans of quoted tokens delimit exactly their text — are NOT decided: they quantify over runs of the tokenizer.")
 ASSUMPTIONS = ["ast.unparse(ast.parse(s)) is a canonical spelling of the expression s (CPython)",
                "str.replace / str.isspace / re character classes behave as documented"]
 
